@@ -4,7 +4,7 @@ import calendar
 
 from ..core import AnalysisError, dotted, call_name, src, walk_local, const_value
 from ..flow import edge_facts, leaves
-from ..rules import flow_of, state_writes, facts_at, canon, cmp_norm, calls_in, bind_args, collect_list
+from ..rules import flow_of, state_writes, facts_at, canon, cmp_norm, calls_in, bind_args, collect_list, specialise
 from ..units import check_units
 from ..tables import UNITS
 
@@ -173,11 +173,17 @@ def rule_selection(ck, rid="C17.S1"):
     f = repo.fn("TimeOfUseTariff._get_tariff_schedule")
     fl = flow_of(f)
     dt = f.params[1]
-    comps = [c for c in walk_local(f.node) if isinstance(c, (ast.ListComp, ast.GeneratorExp))]
-    if len(comps) != 1 or canon(comps[0].generators[0].iter) != "self._schedule":
-        raise AnalysisError("_get_tariff_schedule: selection comprehension over self._schedule not recognised")
-    host = [n for n, sub in fl.cfg.find_nodes(lambda x: x is comps[0])]
-    xcomp = fl.expand(comps[0], host[0]) if host else comps[0]
+    rets_all = [n for n in fl.cfg.nodes if n.kind == "return"]
+    rets = [n for n in rets_all if isinstance(n.expr, ast.Subscript) and canon(n.expr.slice) == "0"]
+    if len(rets) != 1:
+        raise AnalysisError("_get_tariff_schedule: expected a single `return <matches>[0]`")
+    for o in rets_all:
+        if o not in rets:
+            ck.violation(rid, f, o.stmt, f"`{src(o.stmt, 60)}` returns a schedule that was not selected for this date by the weekday-mask and season test", sink="select-other-return")
+    r = rets[0]
+    xcomp = fl.expand(r.expr.value, r)           # an append loop is normalised to the equivalent comprehension
+    if not (isinstance(xcomp, ast.ListComp) and len(xcomp.generators) == 1 and canon(xcomp.generators[0].iter) == "self._schedule"):
+        raise AnalysisError(f"_get_tariff_schedule: selection over self._schedule not recognised: {src(xcomp, 80)}")
     g = xcomp.generators[0]
     s = dotted(g.target)
     atoms = []
@@ -190,9 +196,9 @@ def rule_selection(ck, rid="C17.S1"):
         if isinstance(a, ast.Compare) and len(a.ops) > 1:
             parts = []
             left = a.left
-            for op, r in zip(a.ops, a.comparators):
-                parts.append(ast.Compare(left=left, ops=[op], comparators=[r]))
-                left = r
+            for op, rr in zip(a.ops, a.comparators):
+                parts.append(ast.Compare(left=left, ops=[op], comparators=[rr]))
+                left = rr
         else:
             parts = [a]
         for p in parts:
@@ -206,33 +212,49 @@ def rule_selection(ck, rid="C17.S1"):
                 found["hi"] = True
             else:
                 extra.append(src(p))
-    ck.require(found["mask"], rid, f, comps[0], ok="weekday mask indexed by date.weekday()", bad="selection must test s.dow_mask[date_time.weekday()]", sink="select-mask")
-    ck.require(found["lo"], rid, f, comps[0], ok="start <= (month, day), inclusive", bad="selection must test s.start <= (month, day) (inclusive)", sink="select-start")
-    ck.require(found["hi"], rid, f, comps[0], ok="(month, day) <= end, inclusive", bad="selection must test (month, day) <= s.end (inclusive)", sink="select-end")
-    ck.require(not extra, rid, f, comps[0], ok="no further conditions", bad=f"unexpected selection condition(s): {extra}", sink="select-extra")
-    ck.require(canon(comps[0].elt) == s, rid, f, comps[0], ok="selects the schedules themselves", bad="selection must collect the matching schedules", sink="select-elt")
-    # 0 -> raise, >1 -> raise, else the single one
-    vs = None
-    for n in fl.cfg.nodes:
-        for nm, how in fl._defs.get(n, {}).items():
-            if how[0] == "assign" and how[1] is comps[0]:
-                vs = nm
-    rets = [n for n in fl.cfg.nodes if n.kind == "return"]
-    raises = [n for n in fl.cfg.nodes if n.kind == "raise"]
+    ck.require(found["mask"], rid, f, xcomp, ok="weekday mask indexed by date.weekday()", bad="selection must test s.dow_mask[date_time.weekday()]", sink="select-mask")
+    ck.require(found["lo"], rid, f, xcomp, ok="start <= (month, day), inclusive", bad="selection must test s.start <= (month, day) (inclusive)", sink="select-start")
+    ck.require(found["hi"], rid, f, xcomp, ok="(month, day) <= end, inclusive", bad="selection must test (month, day) <= s.end (inclusive)", sink="select-end")
+    ck.require(not extra, rid, f, xcomp, ok="no further conditions", bad=f"unexpected selection condition(s): {extra}", sink="select-extra")
+    ck.require(canon(xcomp.elt) == s, rid, f, xcomp, ok="selects the schedules themselves", bad="selection must collect the matching schedules", sink="select-elt")
+    # the selection depends on nothing but the date and the schedule table (no memo keyed on part of the date)
+    deps = {x for x in leaves_of(fl.expand(r.expr, r)) if not x.startswith(dt) and x not in ("self._schedule", s) and not x.startswith(s + ".")}
+    ck.require(not deps, rid, f, r.expr, ok="a function of the date and the schedule table only", bad=f"the selected schedule also depends on {sorted(deps)}", sink="select-deps")
+    other_state = [(n, p_) for n, k, p_, t in state_writes(fl)]
+    ck.require(not other_state, rid, f, other_state[0][0].stmt if other_state else "pure lookup", ok="the lookup keeps no state", bad=f"the lookup writes {other_state[0][1] if other_state else ''} (cached results "
+               f"keyed on part of the date return another year's weekday class)", sink="select-pure")
+    # exactly one match is returned; none or several raise: evaluate the length facts at the return for 0, 1, 2, 3 matches
+    import copy as _copy
 
-    def len_facts(n):
-        out = set()
-        for a, t in facts_at(fl, n):
-            c = cmp_norm(fl.expand(a, n) if False else a, t)
-            if c and f"len({vs})" in (canon(c[0]), canon(c[2])):
-                out.add((canon(c[0]), c[1], canon(c[2])))
-        return out
-    zero = any((f"len({vs})", "==", "0") in len_facts(r) or ("0", "==", f"len({vs})") in len_facts(r) for r in raises)
-    many = any(("1", "<", f"len({vs})") in len_facts(r) for r in raises)
-    ck.require(zero, rid, f, "raise on no match", ok="no match raises", bad="a date matching no schedule must raise", sink="select-zero")
-    ck.require(many, rid, f, "raise on several matches", ok="several matches raise", bad="a date matching several schedules must raise", sink="select-many")
-    ok = len(rets) == 1 and canon(rets[0].expr) == f"{vs}[0]"
-    ck.require(ok, rid, f, rets[0].stmt if rets else "return valid_schedules[0]", ok="returns the single match", bad="must return the single matching schedule", sink="select-return")
+    def with_len(e, v):
+        class T(ast.NodeTransformer):
+            def visit_Call(self, n):
+                self.generic_visit(n)
+                if call_name(n) == "len" and len(n.args) == 1 and isinstance(n.args[0], (ast.ListComp, ast.GeneratorExp)) and \
+                        canon(n.args[0].generators[0].iter) == "self._schedule":
+                    return ast.Constant(value=v)
+                return n
+        return T().visit(_copy.deepcopy(e))
+
+    def holds(v):
+        for a, t in facts_at(fl, r):
+            e = specialise(with_len(fl.expand(a, r), v), {})
+            try:
+                val = bool(const_value(e))
+            except (ValueError, TypeError):
+                continue
+            if val != t:
+                return False
+        return True
+    allowed = {v for v in (0, 1, 2, 3) if holds(v)}
+    ck.require(allowed == {1}, rid, f, r.stmt, ok="returned only when exactly one schedule matches", bad=f"the match is returned when the number of matching schedules is in {sorted(allowed)} (must be exactly 1; "
+               f"none or several must raise)", sink="select-exactly-one")
+    ck.require(all(p_.kind in ("return", "raise") for p_ in fl.cfg.exit.pred) and any(n.kind == "raise" for n in fl.cfg.nodes), rid, f, "no match / several matches raise",
+               ok="every other case raises", bad="a date matching no or several schedules does not raise", sink="select-raise")
+
+
+def leaves_of(e):
+    return leaves(e, calls=False)
 
 
 def rule_lookup(ck, rid="C17.S1"):
@@ -245,6 +267,8 @@ def rule_lookup(ck, rid="C17.S1"):
     if len(loops) != 1:
         raise AnalysisError("get_tariff: breakpoint scan loop not recognised")
     lp = loops[0]
+    esc = [n for n in fl.cfg.loop_region(lp) if n.kind == "break"]
+    ck.require(not esc, rid, f, esc[0].stmt if esc else lp.stmt.iter, ok="the scan is not cut short", bad="the breakpoint scan can be left by `break` before a matching breakpoint is found", sink="scan-break")
     it = fl.expand(lp.stmt.iter, lp)
     desc = False
     if isinstance(it, ast.Call) and call_name(it) == "sorted":
@@ -264,10 +288,10 @@ def rule_lookup(ck, rid="C17.S1"):
     rets = [n for n in fl.cfg.nodes if n.kind == "return" and fl.cfg.dominates(lp, n)]
     ok = False
     for r in rets:
-        for a, t in facts_at(fl, r):
-            c = cmp_norm(a, t)
-            if c and canon(c[0]) == f"{var}[0]" and c[1] == "<=" and canon(fl.expand(c[2], r)).startswith("Decimal(") and canon(r.expr) == f"{var}[1]":
-                ok = True
+        inner = [(a, t) for a, t in facts_at(fl, r) if any(isinstance(x, ast.Name) and x.id == var for x in ast.walk(a))]
+        good = [c for a, t in inner if (c := cmp_norm(a, t)) and canon(c[0]) == f"{var}[0]" and c[1] == "<=" and canon(fl.expand(c[2], r)).startswith("Decimal(")]
+        if len(good) == 1 and len(inner) == 1 and canon(r.expr) == f"{var}[1]":
+            ok = True
     ck.require(ok, rid, f, rets[0].stmt if rets else "return r[1]", ok="returns the price of the first breakpoint with t <= target hour (inclusive)",
                bad="must return r[1] for the first breakpoint with target_hour >= r[0] (inclusive)", sink="scan-return")
     th = [how[1] for n in fl.cfg.nodes for nm, how in fl._defs.get(n, {}).items() if nm == "target_hour" and how[0] == "assign"]
@@ -281,14 +305,14 @@ def rule_lookup(ck, rid="C17.S1"):
     rets = [n for n in gfl.cfg.nodes if n.kind == "return"]
     if len(rets) != 1:
         raise AnalysisError("get_tariffs: expected one return")
-    lst = collect_list(gfl, rets[0].expr, rets[0])
+    xc = gfl.expand(rets[0].expr, rets[0])
+    while isinstance(xc, ast.Call) and call_name(xc) in ("list", "array") and xc.args:
+        xc = xc.args[0]
     ok = False
-    if lst and len(lst) == 1:
-        elt, it = lst[0]
-        comp = [c for c in ast.walk(rets[0].expr) if isinstance(c, (ast.ListComp, ast.GeneratorExp))]
-        rng = canon(comp[0].generators[0].iter) if comp else ""
-        v = dotted(comp[0].generators[0].target) if comp else ""
-        e = canon(comp[0].elt) if comp else ""
+    if isinstance(xc, (ast.ListComp, ast.GeneratorExp)) and len(xc.generators) == 1 and not xc.generators[0].ifs:
+        rng = canon(xc.generators[0].iter)
+        v = dotted(xc.generators[0].target)
+        e = canon(xc.elt)
         ok = rng == f"range({g.params[2]})" and e in (f"self.get_tariff({g.params[1]} + {v} * timedelta(minutes={g.params[3]}))", f"self.get_tariff({g.params[1]} + timedelta(minutes={g.params[3]}) * {v})",
                                                      f"self.get_tariff({g.params[1]} + timedelta(minutes={g.params[3]} * {v}))", f"self.get_tariff({g.params[1]} + timedelta(minutes={v} * {g.params[3]}))")
     ck.require(ok, rid, g, rets[0].expr, ok="entry k = get_tariff(start + k x period) for k in range(length)", bad="the vector lookup must evaluate get_tariff(start + k*timedelta(minutes=period)) for k in range(length)",
